@@ -47,6 +47,7 @@ type upstreamConn struct {
 
 type subEnv struct {
 	*fedEnv
+	smu        sync.Mutex // guards ups, srvConns, dial bookkeeping (handlers of several connections run in parallel in free mode)
 	ups        []*upstreamConn
 	scripts    func(svc int, query string) *upScript
 	dialCount  int
@@ -83,12 +84,14 @@ func (se *subEnv) svcOfAddr(addr string) int {
 // dial is what the gateway's ws.Dialer calls (hook H3).
 func (se *subEnv) dial(ctx context.Context, network, addr string) (net.Conn, error) {
 	svc := se.svcOfAddr(addr)
+	who := se.s.CurrentID()
+	se.smu.Lock()
+	defer se.smu.Unlock()
 	se.dialCount++
 	n := se.dialCount
 	// the dial happens on the handler goroutine of a client connection, while it processes the
 	// oldest start message of that connection which has not dialled yet
 	var sc *upScript
-	who := se.s.CurrentID()
 	if q := se.pendingStarts[who]; len(q) > 0 {
 		sc = q[0]
 		se.pendingStarts[who] = q[1:]
@@ -270,6 +273,7 @@ type wsFrame struct {
 }
 
 type wsClient struct {
+	mu              sync.Mutex // reader goroutine vs client goroutine
 	name            string
 	se              *subEnv
 	conn            *simnet.Conn // client side
@@ -291,7 +295,9 @@ func (se *subEnv) connect(name string) *wsClient {
 	c := &wsClient{name: name, se: se}
 	cl, srv := simnet.Pipe(se.s, "cl-"+name)
 	c.conn, c.srv = cl, srv
+	se.smu.Lock()
 	se.srvConns = append(se.srvConns, srv)
+	se.smu.Unlock()
 	se.s.Go("server-"+name, func() {
 		p, _ := simnet.ServeConn(srv, se.gw.Handler)
 		c.handlerPanic = p
@@ -312,56 +318,63 @@ func (se *subEnv) connect(name string) *wsClient {
 
 // readLoop parses every byte the client receives into frames.
 func (c *wsClient) readLoop() {
-	defer func() { c.readerDone = true }()
+	defer func() { c.mu.Lock(); c.readerDone = true; c.mu.Unlock() }()
 	for {
 		h, err := ws.ReadHeader(c.conn)
 		if err != nil {
+			c.mu.Lock()
 			if err != io.EOF && !strings.Contains(err.Error(), "reset") && !strings.Contains(err.Error(), "closed") {
 				c.parseErr = "torn frame header: " + err.Error()
 			}
 			c.closed = true
+			c.mu.Unlock()
 			return
 		}
 		if h.Masked || h.Length > 1<<22 || h.Rsv != 0 {
-			c.parseErr = fmt.Sprintf("implausible frame header from a server: %+v", h)
+			c.setParseErr(fmt.Sprintf("implausible frame header from a server: %+v", h))
 			return
 		}
 		payload := make([]byte, h.Length)
 		if _, err := io.ReadFull(c.conn, payload); err != nil {
 			// the client's own close / reset is not the gateway's doing; a stream that ends inside a
 			// frame because the gateway closed is a torn frame
+			c.mu.Lock()
 			if !strings.Contains(err.Error(), "reset") && !strings.Contains(err.Error(), "closed network") {
 				c.parseErr = fmt.Sprintf("torn frame: %d payload bytes announced, stream ended: %v", h.Length, err)
 			}
 			c.closed = true
+			c.mu.Unlock()
 			return
 		}
-		c.raw++
 		switch h.OpCode {
 		case ws.OpClose:
+			c.mu.Lock()
 			c.closeFrm = true
 			c.closed = true
+			c.mu.Unlock()
 			continue
 		case ws.OpText:
 			var f wsFrame
 			if err := json.Unmarshal(payload, &f); err != nil || f.Type == "" {
-				c.parseErr = fmt.Sprintf("text frame is not a protocol message: %q", clipStr(string(payload), 200))
+				c.setParseErr(fmt.Sprintf("text frame is not a protocol message: %q", clipStr(string(payload), 200)))
 				return
 			}
 			switch f.Type {
 			case "connection_ack", "ka", "data", "error", "complete", "connection_error":
 			default:
-				c.parseErr = fmt.Sprintf("unknown message type %q", f.Type)
+				c.setParseErr(fmt.Sprintf("unknown message type %q", f.Type))
 				return
 			}
+			c.mu.Lock()
 			c.frames = append(c.frames, f)
+			c.mu.Unlock()
 		case ws.OpPing, ws.OpPong:
 		default:
-			c.parseErr = fmt.Sprintf("unexpected opcode %d", h.OpCode)
+			c.setParseErr(fmt.Sprintf("unexpected opcode %d", h.OpCode))
 			return
 		}
 		if !h.Fin {
-			c.parseErr = "fragmented frame from the gateway"
+			c.setParseErr("fragmented frame from the gateway")
 			return
 		}
 	}
@@ -373,7 +386,27 @@ func (c *wsClient) send(typ, id string, payload interface{}) error {
 
 func (c *wsClient) sendRaw(b []byte) error { return wsutil.WriteClientText(c.conn, b) }
 
+func (c *wsClient) setParseErr(msg string) {
+	c.mu.Lock()
+	c.parseErr = msg
+	c.mu.Unlock()
+}
+
+func (c *wsClient) isClosed() bool {
+	c.mu.Lock()
+	defer c.mu.Unlock()
+	return c.closed
+}
+
+func (c *wsClient) isReaderDone() bool {
+	c.mu.Lock()
+	defer c.mu.Unlock()
+	return c.readerDone
+}
+
 func (c *wsClient) dataFrames(id string) []wsFrame {
+	c.mu.Lock()
+	defer c.mu.Unlock()
 	var out []wsFrame
 	for _, f := range c.frames {
 		if f.Type == "data" && f.ID == id {
@@ -387,7 +420,7 @@ func (c *wsClient) dataFrames(id string) []wsFrame {
 func (c *wsClient) waitFrames(id string, n int, timeout time.Duration) bool {
 	deadline := time.Now().Add(timeout)
 	for len(c.dataFrames(id)) < n {
-		if time.Now().After(deadline) || c.readerDone {
+		if time.Now().After(deadline) || c.isReaderDone() {
 			return false
 		}
 		time.Sleep(50 * time.Millisecond)
@@ -407,6 +440,8 @@ func (se *subEnv) refEvent(op *gql.Op, seq int) map[string]interface{} {
 
 // handshaking counts upstream connections whose dial / init / start exchange is still in flight.
 func (se *subEnv) handshaking() int {
+	se.smu.Lock()
+	defer se.smu.Unlock()
 	n := 0
 	for _, u := range se.ups {
 		if !u.started && !u.done {
